@@ -140,10 +140,32 @@ def dec(spec):
         return SUBS[v[0]][0](dec(v[1]))
     if k == 'rec':
         return Rec(v[0], v[1])
+    if k == 'same':
+        # a tuple whose members are one and the same object (f(lang, lang) with one variable)
+        o = dec(v[0])
+        return (o,) * v[1]
+    if k == 'dist':
+        # an equal tuple whose members are equal but distinct objects (each computed separately)
+        return tuple(distinct_copy(dec(v[0])) for _ in range(v[1]))
     if k == 'pkl':
         import pickletools
         return pickletools.optimize(pickle.dumps(dec(v[0]), protocol=v[1]))
     raise ValueError(spec)
+
+
+def distinct_copy(o):
+    """An object equal to `o` and of its type that is not `o` (str / bytes of two or more items, non-empty tuples)."""
+    if type(o) is str and len(o) > 1:
+        c = ''.join([o[:1], o[1:]])
+    elif type(o) is bytes and len(o) > 1:
+        c = bytes(bytearray(o))
+    elif type(o) is tuple and o:
+        c = tuple(list(o))
+    else:
+        raise ValueError('no distinct copy of %r' % (o,))
+    if c is o or c != o:
+        raise ValueError('copy of %r is not distinct' % (o,))
+    return c
 
 
 def same(a, b):
